@@ -2315,6 +2315,58 @@ impl PositionCutOperation<'_, '_> {
     }
 }
 
+/// Verification hooks (runtime monitors in `/verif`): public forwarding wrappers only.
+#[cfg(gmsol_verif)]
+pub mod verif {
+    use super::*;
+
+    /// Public wrapper of `compute_builder_fee_amount`.
+    pub fn verif_compute_builder_fee_amount(
+        size_delta_usd: u128,
+        factor: u128,
+        price: &Price<u128>,
+    ) -> Result<u128> {
+        compute_builder_fee_amount(size_delta_usd, factor, price)
+    }
+
+    /// Public wrapper of `clamp_builder_fee_amount`.
+    pub fn verif_clamp_builder_fee_amount(fee_amount: u128, available: u128) -> u128 {
+        clamp_builder_fee_amount(fee_amount, available)
+    }
+
+    /// Public wrapper of `charge_builder_fee_on_collateral_increment`.
+    pub fn verif_charge_builder_fee_on_collateral_increment(
+        collateral_increment_amount: u64,
+        size_delta_usd: u128,
+        builder_fee_factor: u128,
+        collateral_price: &Price<u128>,
+    ) -> Result<(u64, u64)> {
+        charge_builder_fee_on_collateral_increment(
+            collateral_increment_amount,
+            size_delta_usd,
+            builder_fee_factor,
+            collateral_price,
+        )
+    }
+
+    /// Public wrapper of `estimate_builder_fee_for_collateral_withdrawal`.
+    pub fn verif_estimate_builder_fee_for_collateral_withdrawal(
+        collateral_withdrawal_amount: u128,
+        size_delta_usd: u128,
+        builder_fee_factor: u128,
+        collateral_price: &Price<u128>,
+        decrease_position_swap_type: DecreasePositionSwapType,
+    ) -> Result<u128> {
+        estimate_builder_fee_for_collateral_withdrawal(
+            collateral_withdrawal_amount,
+            size_delta_usd,
+            builder_fee_factor,
+            collateral_price,
+            decrease_position_swap_type,
+        )
+    }
+}
+
 #[cfg(test)]
 mod tests {
     use super::*;
